@@ -41,6 +41,7 @@ Positions(S, p) ==
    \cup {[t |-> "idx", v |-> i] : i \in 0..Len(KidsOf(S, p))}
    \cup {[t |-> "node", v |-> b] : b \in SeqSet(KidsOf(S, p))}
 BadPositions(S, p) == {[t |-> "node", v |-> b] : b \in Live(S) \ SeqSet(KidsOf(S, p))}
+                      \cup {[t |-> "idx", v |-> Len(KidsOf(S, p)) + j] : j \in 1..2}    \* beyond the end of the list
 MovePositions(S, x, p) ==   \* int positions are ambiguous for a move within the same parent: not driven
    IF p # x /\ S.par[x] = p
    THEN {PosNone, [t |-> "true", v |-> 0], [t |-> "false", v |-> 0], [t |-> "idx", v |-> 0]}
@@ -94,6 +95,10 @@ Ops(S) ==
    (IF "move" \in OpNames THEN
       UNION {{[name |-> "move_to", x |-> xp[1], p |-> xp[2], pos |-> pos] : pos \in MovePositions(S, xp[1], xp[2])} :
              xp \in Live(S) \X Parents(S)}
+      \cup (IF "badpos" \in OpNames THEN
+              {[name |-> "move_to", x |-> xp[1], p |-> xp[2], pos |-> [t |-> "idx", v |-> Len(KidsOf(S, xp[2])) + 2]] :
+                  xp \in {q \in Live(S) \X Parents(S) : S.par[q[1]] # q[2]}}
+            ELSE {})
       \cup {[name |-> "move_foreign", x |-> x] : x \in Live(S)}
     ELSE {})
    \cup
@@ -162,7 +167,7 @@ Dbg(b, msg) == b \/ (PrintT(msg) /\ FALSE)
 (* C13 / C03: a refused operation leaves the state unchanged, and every naive duplicate is refused *)
 RefusalOp(op) == LET r == Apply(World, op) IN
                       /\ (~r.ok => r.st = t /\ r.errs # {})
-                      /\ (r.ok => r.errs = {} /\ Consistent(r.st))
+                      /\ (r.ok => Consistent(r.st))      \* (errs # {} with ok: "carried out OR refused", see PosOOB)
 RefusalFrame == \A op \in Ops(t) : Dbg(RefusalOp(op), <<"RefusalFrame fails", t, op>>)
 (* C04: frame — nodes that survive an operation keep identity attributes unless the op edits them;
    surviving siblings that stay under the same parent keep their relative order unless sorting *)
